@@ -1329,6 +1329,31 @@ struct Explorer {
     return v;
   }
 
+  /// C09 under faults: a kill or an I/O error at any one file operation of an invocation leaves, for every output that
+  /// still has a build statement using deps, either the record it had or a complete newer one -- never none.
+  void CheckDepsLogSurvivesFault(const Op& op, const vfs::Disk& before, const vfs::Disk& after, const string& what,
+                                 vector<Violation>* out) {
+    const vfs::File* fb = before.Get(kDeps);
+    if (!fb) return;
+    lp::DepsLogModel d0 = lp::ParseDepsLog(fb->data), d1;
+    if (!d0.header_ok || !d0.clean) return;
+    if (const vfs::File* fa = after.Get(kDeps)) d1 = lp::ParseDepsLog(fa->data);
+    const Variant* v = VariantOf(sc, after);
+    if (!v) return;
+    for (auto& kv : d0.deps) {
+      auto p = v->producer.find(kv.first);
+      if (p == v->producer.end() || v->stmts[p->second].deps.empty()) continue;   // may be dropped by a recompaction
+      if (d1.deps.count(kv.first)) continue;
+      Violation x; x.prop = "C09"; x.clause = "fault-loses-records";
+      x.detail = "'" + op.label + "', " + what + ": the deps record of '" + kv.first + "' (its statement still uses deps) is gone (" +
+                 to_string(d1.deps.size()) + " of " + to_string(d0.deps.size()) + " records left)";
+      x.facts.set("output", kv.first);
+      x.facts.set("tool", op.tool ? op.tool_kind : string("build"));
+      out->push_back(x);
+      return;
+    }
+  }
+
   /// C09 at process level: any invocation that opens the deps log (builds, -t recompact, -t deps, the
   /// automatic recompaction of a log with a long history) keeps, unchanged, the record of every output
   /// that still has a build statement using deps and whose command it did not run.
@@ -2758,7 +2783,7 @@ struct Explorer {
         s.set("exit", r.exit_code);
         samples.push_back(s);
       }
-      if (op.crash && (Want("C07") || Want("C08")) && !r.hang && !r.horizon) {
+      if (op.crash && (Want("C07") || Want("C08") || Want("C09")) && !r.hang && !r.horizon) {
         // every crash point of this schedule; for write operations with and without a torn part
         for (uint64_t k = 0; k < r.ops; ++k) {
           for (int tear : {-1, 7}) {
@@ -2778,6 +2803,13 @@ struct Explorer {
               RunResult rm = rc;
               for (size_t oi = 0; oi < orphans.size(); ++oi)
                 if (mask & (1u << oi)) CompleteOrphan(&dm, &rm, cc, orphans[oi]);
+              if (Want("C09") && mask == 0) {
+                vector<Violation> cv;
+                CheckDepsLogSurvivesFault(op, w.disk, dm, "ninja dies at mutating operation " + to_string(k) + (tear >= 0 ? " (write lands partly)" : ""), &cv);
+                vector<Step> ch = w.hist;
+                ch.push_back({opi, r.choices, (int64_t)k, tear, 0});
+                for (auto& x : cv) Report(x, ch);
+              }
               if (Want("C08") && mask == 0) {
                 vector<Violation> cv;
                 CheckLogSurvivesFault(op, w.disk, dm, "ninja dies at mutating operation " + to_string(k) + (tear >= 0 ? " (write lands partly)" : ""), &cv);
@@ -2814,7 +2846,10 @@ struct Explorer {
               x.detail = "an I/O error at mutating operation " + to_string(k) + " makes ninja hang or report 'stuck'";
               fv.push_back(x);
             }
-            if (Want("C08") && !rf.hang && !rf.horizon)
+            // (one fault per history for I/O errors: an error on top of the debris of an earlier kill is a double fault)
+            if (Want("C09") && !rf.hang && !rf.horizon && !w.abnormal)
+              CheckDepsLogSurvivesFault(op, w.disk, df, "mutating operation " + to_string(k) + " fails with an I/O error (exit " + to_string(rf.exit_code) + ")", &fv);
+            if (Want("C08") && !rf.hang && !rf.horizon && !w.abnormal)
               CheckLogSurvivesFault(op, w.disk, df, "mutating operation " + to_string(k) + " fails with an I/O error (exit " + to_string(rf.exit_code) + ")", &fv);
             vector<Step> fh = w.hist;
             fh.push_back({opi, r.choices});
